@@ -9,7 +9,7 @@ proj_P_to_simplex.  Oracles (numpy / scipy only, no dreye, no cvxpy):
 * boundary hit    : alpha > 0 and max_facets(n.(alpha b) + off) == 0; cross-checked with a
                     HiGHS gauge LP over the V-representation (max t : t b in conv(vertices)).
 * exact slice     : support function of the returned points == support function of
-                    conv(P) /\ {sum x = c} from a HiGHS LP over the convex-combination weights,
+                    conv(P) cut by {sum x = c} from a HiGHS LP over the convex-combination weights,
                     cross-checked by the closed form "all below/above pairs cut by the plane".
 
 qhull (scipy.spatial.ConvexHull) is used only to build the *input* facet equations.
@@ -53,7 +53,7 @@ TOL_SUPPORT = 1e-7     # support functions, x scale                             
 TOL_ORACLES = 1e-8     # LP oracle vs closed-form oracle, x scale               (seen 1e-10)
 TOL_MEMBER = 1e-7      # returned slice point in conv(P), x scale               (seen 1e-11)
 THIN_MIN = -4.0        # log10 of the smallest relative hull thickness generated for proj_B_to_hull
-T_BATCH, T_ROW = 2.0, 4.0      # termination guard (a batch normally takes ~2 ms)
+T_BATCH, T_ROW = 3.0, 4.0      # termination guard (a batch normally takes ~2 ms)
 HOSTILE_THIN_FLAT = True       # generate coplanar strips with aspect ratio up to 3000:1 (slice clause)
 LP_OPTS = {"primal_feasibility_tolerance": 1e-10, "dual_feasibility_tolerance": 1e-10}
 
@@ -115,7 +115,7 @@ M = Monitor(
         "slice: c == largest sum is rejected by the function itself (AssertionError) and not generated; "
         "c == smallest sum is accepted by the function and is judged",
         "HiGHS LPs are solved on clouds normalised to max|P| = 1 with feasibility tolerances 1e-10",
-        "a proj_B_to_hull batch that does not return within 2 s (and the single query within 4 s) in a forked "
+        "a proj_B_to_hull batch that does not return within 3 s (and the single query within 4 s) in a forked "
         "child counts as 'does not return'; normal run time is ~2 ms"],
 )
 
@@ -651,7 +651,7 @@ def _support_lp(Pn, cn, U):
 
 
 def _support_pairs(P, c, U):
-    """conv(P) /\ {sum = c} is the hull of the cuts of all segments [P_i, P_j] with s_i <= c <= s_j."""
+    """conv(P) cut by {sum = c} is the hull of the cuts of all segments [P_i, P_j] with s_i <= c <= s_j."""
     ps = P.sum(1)
     I, J = np.meshgrid(np.flatnonzero(ps <= c), np.flatnonzero(ps >= c), indexing="ij")
     I, J = I.ravel(), J.ravel()
